@@ -173,6 +173,78 @@ def rule_getparams(rep, repo):
             loc=sm.loc(fn))
 
 
+def rule_parse_is_stateless(rep, repo):
+  """R5: what a quantizer string parses to depends on the string only.  One
+  interpreter runs safe_eval several times (memoising decorators are
+  modelled): a parse with caller overrides, a parse whose list argument is
+  modified by the callee, and afterwards plain parses of the same argument
+  text - those must receive exactly the arguments written in the text."""
+  sm = repo.module("qkeras.safe_eval")
+  fn = sm.functions.get("safe_eval")
+  if fn is None:
+    raise AnalysisError("anchor-missing function safe_eval")
+  unit = "%s::safe_eval" % sm.relpath
+  rep.unit(unit)
+  loc = sm.loc(fn)
+  calls = []
+
+  def callee(tag, mutate=False):
+    def f(pe, a, k):
+      calls.append((tag, [list(v) if isinstance(v, list) else v for v in a],
+                    {kk: (list(v) if isinstance(v, list) else v)
+                     for kk, v in k.items()}))
+      if mutate:
+        for v in list(a) + list(k.values()):
+          if isinstance(v, list):
+            v.append(99)
+      return Mock("built by " + tag, {})
+    return f
+  opd = {"qa": callee("qa"), "qb": callee("qb"), "qm": callee("qm", True)}
+  pe = PE(repo)
+  pe.opaque_ext = True
+  se = pe.lookup_global("safe_eval", sm)
+  script = [("qa(4,1)", {"use_stochastic_rounding": True}),
+            ("qb(4,1)", {}),
+            ("qa(4,1)", {}),
+            ("qm(2,axes=[0 1])", {}),
+            ("qb(2,axes=[0 1])", {}),
+            ("qa(3,alpha=2)", {"alpha": 5}),
+            ("qb(3,alpha=2)", {})]
+  try:
+    for text, extra in script:
+      pe.call(se, [text, opd], dict(extra))
+  except PyRaise as e:
+    rep.fail("R5", unit, "parse-sequence-raises", "safe_eval raises %s in "
+             "the sequence %r" % (e, [t for t, _ in script]), loc=loc)
+    return
+  want = [("qa", [4, 1], {"use_stochastic_rounding": True}),
+          ("qb", [4, 1], {}), ("qa", [4, 1], {}),
+          ("qm", [2], {"axes": [0, 1]}), ("qb", [2], {"axes": [0, 1]}),
+          ("qa", [3], {"alpha": 5}), ("qb", [3], {"alpha": 2})]
+
+  def norm(v):
+    if isinstance(v, Tensor) and v.term[0] == "c":
+      v = v.term[1]
+    if hasattr(v, "value"):
+      v = v.value
+    if isinstance(v, list):
+      return [norm(e) for e in v]
+    return int(v) if isinstance(v, F) and v.denominator == 1 else v
+  got = [(t, [norm(v) for v in a], {kk: norm(v) for kk, v in k.items()})
+         for t, a, k in calls]
+  for i, (g, w) in enumerate(zip(got, want)):
+    rep.check(g == w, "R5", unit, "parse-depends-on-earlier-parse",
+              "call %d, safe_eval(%r%s): the callee receives %r, the text "
+              "says %r (earlier calls: %r)" % (
+                  i + 1, script[i][0], ", **%r" % script[i][1]
+                  if script[i][1] else "", g, w,
+                  [t for t, _ in script[:i]]), loc=loc,
+              instance=script[i][0], observed=str(g))
+  rep.check(len(got) == len(want), "R5", unit, "parse-sequence-length",
+            "%d callee invocations for %d parses" % (len(got), len(want)),
+            loc=loc)
+
+
 def rule_getarg(rep, repo):
   sm = repo.module("qkeras.safe_eval")
   fn = sm.functions.get("GetArg")
@@ -363,6 +435,8 @@ def run(rep, repo, tier):
                          "dispatch is analysed")
   rule_no_exec(rep, repo)
   rule_getparams(rep, repo)
+  rule_parse_is_stateless(rep, repo)
+  rep.require_instances("R5", 7)
   rule_getarg(rep, repo)
   rule_literals(rep, repo)
   n = 0
